@@ -77,9 +77,12 @@ def partial(g, q, k):
         return run_query(g, q)
     try:
         it = iter(getattr(g, QUERY[q[1]])(TermId.from_curie(q[2]), include_source=q[3]))
+        got = []
         for _ in range(k):
-            next(it, None)
-        return it
+            y = next(it, None)
+            if y is not None:
+                got.append(y.value)
+        return (it, got)
     except Exception:
         return None
 
@@ -118,15 +121,25 @@ def observe_graph_case(case):
     # (a) history independence: q1 fully, q2 partially consumed and abandoned, then q
     d0 = digest(g)
     keep = []
-    for (i1, i2, i3, k) in case['histories']:
+    for h, (i1, i2, i3, k) in enumerate(case['histories']):
         run_query(g, queries[i1])
-        keep.append(partial(g, queries[i2], k))
+        part = partial(g, queries[i2], k)
+        keep.append(part)
         if len(keep) > 3:
             keep.pop(0)
         r = run_query(g, queries[i3])
         if r != base[i3]:
             direct.append(f'after {queries[i1]} and a partially consumed {queries[i2]}, {queries[i3]} gives {r} instead of {base[i3]}')
             break
+        if h % 2 == 0 and isinstance(part, tuple) and isinstance(base[i2], list):
+            # ... and the half-consumed traversal, resumed after the other query, finishes its solo sequence
+            try:
+                whole = part[1] + [y.value for y in part[0]]
+            except Exception as e:
+                whole = 'raise:' + exn_name(e)
+            if whole != base[i2]:
+                direct.append(f'a partially consumed {queries[i2]} resumed after {queries[i3]} yields {whole} in all instead of {base[i2]}')
+                break
     if digest(g) != d0:
         diag.append('the attributes reachable from the graph object changed while queries ran (diagnostic)')
     # (b) interleaved consumption of several open traversal iterators
